@@ -120,6 +120,10 @@ def make_recipe(rng, tier):
     if k == "GaussianCovCost" and dk in ("small_alphabet", "piecewise_const", "dyadic"):
         dk = "weak_changes"
     X, _ = gen_data(rng, n, p, dk)
+    if k in ("GaussianVarCost", "GaussianCovCost") and rng.random() < 0.4:
+        X = X * float(rng.choice([0.01, 0.05, 0.15]))  # small scale: negative Gaussian costs
+    if k == "ClosureTableCost" and rng.random() < 0.5:
+        cost["kw"]["offset"] = int(rng.choice([2, 5]))  # negative table costs
     scale = float(rng.choice([0.0, 1e-6, 0.02, 0.1, 0.3, 0.7, 1.0, 2.0, 3.0]))
     int_dtype = bool(k in ("L2Cost", "none", "L1Cost", "L2fixed") and rng.random() < 0.15)
     if int_dtype:
@@ -217,6 +221,26 @@ def exec_case(ctx, r, exhaustive=False):
         if abs(total - scores[-1]) > tol:
             ctx.violation(sub, "final-score", f"{label}: final score {scores[-1]} != penalised cost "
                           f"{total} of the returned segmentation {cp}", r)
+    # the scores must follow the CURRENT fit: refit the same detector on data of another length
+    # (another penalty), then ask for the scores of the very same object X again
+    if not exhaustive and n >= 4:
+        try:
+            X2 = np.vstack([X, X[: max(2 * msl, n // 2)]]).astype(float)
+            det.fit(X2)
+            beta2 = float(det.penalty_)
+            s2 = np.asarray(det.transform_scores(X), dtype=float).ravel()
+            F2 = reference_op(C, n, msl, beta2)
+            ctx.stat("refit_then_scores")
+            bad2 = ts[np.abs(s2[ts - 1] - F2[ts]) > 1e-9 * (1 + np.abs(F2[np.isfinite(F2)]).max())]
+            if bad2.size:
+                t = int(bad2[0])
+                ctx.violation(sub, "scores-after-refit", f"{label}: after refitting on {len(X2)} samples "
+                              f"(penalty {beta2}) transform_scores(X) reports {s2[t - 1]} for prefix X[0:{t}] "
+                              f"but the optimal penalised cost is {F2[t]} (stale scores of the earlier fit?)", r)
+        except RuntimeError:
+            pass
+        except Exception as ex:
+            ctx.violation(sub, "exception", f"{label}: refit/transform_scores raised {type(ex).__name__}: {ex}", r)
     if not exhaustive:
         if pruned and len(cp) >= 1 and n >= 3 * msl:
             ctx.nt(digest([spec, r["X"]]))
